@@ -19,6 +19,7 @@
 #include "MFront/MFrontLogStream.hxx"
 #include "MTest/AccelerationAlgorithm.hxx"
 #include "MTest/AccelerationAlgorithmFactory.hxx"
+#include "MTest/GenericSolver.hxx"
 #include "C48/mock.hxx"
 #include "C48/mtrun.hxx"
 
@@ -97,6 +98,67 @@ static std::string op_fp(Tokens& tk) {
   return out;
 }
 
+/*
+ * proto <dyn> <mSub> <iterMax> <ppolicy> <ti> <te> <na> (kind factor at)*na
+ *   the calls GenericSolver::execute makes to the acceleration algorithm, attempt by attempt:
+ *   a (attempt = prepare)  p (preExecuteTasks)  x<iter> (execute)  q (postExecuteTasks)
+ */
+struct SpyAlgorithm final : mtest::AccelerationAlgorithm {
+  std::string* log;
+  explicit SpyAlgorithm(std::string* l) : log(l) {}
+  std::string getName() const override { return "spy"; }
+  void initialize(const unsigned short) override {}
+  void setParameter(const std::string&, const std::string&) override {}
+  void preExecuteTasks() override { *log += " p"; }
+  void execute(Vector&, const Vector&, const Vector&, const real, const real, const unsigned short iter) override {
+    *log += " x" + std::to_string(iter);
+  }
+  void postExecuteTasks() override { *log += " q"; }
+  ~SpyAlgorithm() override = default;
+};
+
+static std::string op_proto(Tokens& tk) {
+  mtest::SolverOptions o;
+  o.dynamic_time_step_scaling = tk.integer() != 0;
+  o.mSubSteps = static_cast<int>(tk.integer());
+  o.iterMax = static_cast<int>(tk.integer());
+  const auto pp = tk.integer();
+  o.ppolicy = (pp == 0) ? mtest::PredictionPolicy::NOPREDICTION
+                        : ((pp == 1) ? mtest::PredictionPolicy::LINEARPREDICTION
+                                     : mtest::PredictionPolicy::ELASTICPREDICTION);
+  o.ktype = mtest::StiffnessMatrixType::CONSISTENTTANGENTOPERATOR;
+  o.eeps = 1e-12;
+  o.seps = 1e-3;
+  const auto ti = tk.dbl();
+  const auto te = tk.dbl();
+  const auto na = static_cast<std::size_t>(tk.integer());
+  MockStudy s;
+  s.n = 2;
+  s.late_convergence = true;
+  for (std::size_t i = 0; i != na; ++i) {
+    Attempt a;
+    a.kind = static_cast<int>(tk.integer());
+    a.factor = tk.dbl();
+    a.at = static_cast<int>(tk.integer());
+    s.script.push_back(a);
+  }
+  std::string log;
+  s.on_attempt_start = [&log](mtest::StudyCurrentState&, real, real) { log += " a"; };
+  o.aa = std::make_shared<SpyAlgorithm>(&log);
+  mtest::StudyCurrentState scs;
+  mtest::SolverWorkSpace wk;
+  s.initializeCurrentState(scs);
+  s.initializeWorkSpace(wk);
+  std::string verdict;
+  try {
+    mtest::GenericSolver().execute(scs, wk, s, o, ti, te);
+    verdict = "end";
+  } catch (std::exception& e) {
+    verdict = "exc:" + classify(e);
+  }
+  return verdict + log;
+}
+
 int main() {
   mfront::getVerboseMode() = mfront::VERBOSE_QUIET;
   std::string line;
@@ -111,6 +173,8 @@ int main() {
         ans = op_fp(tk);
       } else if (op == "mt") {
         ans = op_mt(tk);
+      } else if (op == "proto") {
+        ans = op_proto(tk);
       } else {
         ans = "bad-op";
       }
